@@ -33,6 +33,8 @@ func main() {
 		runC05(r, *n, w)
 	case "C10":
 		runC10(r, *n, w)
+	case "C09hub":
+		runC09hub(r, *n, w)
 	case "C11reg":
 		runC11reg(r, *n, w)
 	case "C18":
